@@ -320,14 +320,26 @@ def _signature(fn):
 
 
 def _visible_keys(res, fn):
+    """Keys of the final environment that name something visible outside the call: attributes / items of `self`, of a
+    parameter, or of a global (module, class, module-level table)."""
     params = {a.arg for a in fn.args.posonlyargs + fn.args.args + fn.args.kwonlyargs}
+    imported = {(a.asname or a.name).split(".")[0] for n in ast.walk(fn) if isinstance(n, (ast.Import, ast.ImportFrom)) for a in n.names}
+    local = alpha._bound(fn) - params - imported
     keys = set()
     for k in res.env:
         if k.startswith("__"):
             continue
         root = k.split(".")[0].split("[")[0]
-        if "." in k and (root == "self" or root in params):
-            keys.add(k)
+        if not root.isidentifier():
+            continue
+        if "." in k or "[" in k:
+            if root == "self" or root == "cls" or root in params or root not in local:
+                keys.add(k)
+        elif root not in local and root not in params and root not in ("self", "cls"):
+            # a global name whose object was written through (table[key] = v) or rebound under `global`
+            v = res.env[k]
+            if v != pyval.sym(k):
+                keys.add(k)
     return keys
 
 
